@@ -559,7 +559,8 @@ func c19Keys(c *Ctx, cf *CFacts) {
 		prodStr := ""
 		nArith := 0
 		if ret != nil && len(ret.Results) == 1 {
-			ast.Inspect(ret.Results[0], func(m ast.Node) bool {
+			// every product / sum of the function (also those parked in a local before the return)
+			ast.Inspect(f.Body, func(m ast.Node) bool {
 				if be, ok := m.(*ast.BinaryExpr); ok && (be.Op.String() == "*" || be.Op.String() == "+") {
 					nArith++
 					tx, ty := info.TypeOf(be.X), info.TypeOf(be.Y)
